@@ -9,7 +9,7 @@ HOLD_LABELS = ['call', 'wf.enter', 'wf.exit', 'add.enq', 'loop.wake', 'loop.pass
                'rel.enter', 'rel.bcast', 'jclose.marked', 'wuf.locked', 'wuf.wait', 'wuf.woken', 'pause.load', 'resume.check',
                'resume.stored', 'stop.waited', 'stop.chans', 'stop.nodes', 'stopall.removed', 'restart.waited', 'restart.closed',
                'restart.newchans', 'restart.reset', 'start.enter', 'start.node', 'node.init', 'tune.stored', 'tune.popped',
-               'purge.deq', 'job.sp.load', 'job.mc.load', 'jclose.checked', 'disp.cas.load', 'serve.wfdone', 'lifecycle.locked', 'tune.checked', 'reap.expired', 'add.pre', 'wgc.cas', 'resp.stored', 'resp.close', 'mgr.register', 'ad.sub', 'reap.tick', 'reap.snap', 'reap.removed', 'reap.stopped', 'ctx.fired', 'sub.notify', 'free.push', 'free.stop', 'bind.sub', 'wgc.load']
+               'purge.deq', 'job.sp.load', 'job.mc.load', 'jclose.checked', 'disp.cas.load', 'serve.wfdone', 'lifecycle.locked', 'tune.checked', 'reap.expired', 'add.pre', 'wgc.cas', 'resp.stored', 'resp.close', 'mgr.register', 'ad.sub', 'reap.tick', 'reap.snap', 'reap.removed', 'reap.stopped', 'ctx.fired', 'sub.notify', 'free.push', 'free.stop', 'bind.sub', 'wgc.load', 'wrap.wf', 'wrap.ret']
 
 
 def sched(rng, procs=('disp', 'pg', 'c', 'w', 'ctl', 'x')):
